@@ -1446,6 +1446,11 @@ def evaluate(ctx, cases):
     # round 2: shEval on the text the implementation emitted
     reqs2, where2 = [], []
     for i, (c, io_) in enumerate(zip(cases, impl)):
+        if c["kind"] == "emit" and c["opts"]["shell"] == "csh" and not c["opts"]["noaction"] and "cmds" in io_:
+            fg = c.get("forgotten", [])
+            where2.append((i, "csh"))
+            reqs2.append({"m": "c05", "op": "csh", "base": c["old"], "old": [[k, None if k in fg else v] for k, v in c["old"]],
+                          "new": c["new"], "opts": c["opts"]})
         if c["kind"] in ("emit", "acts") and io_.get("shells") is not None:
             where2.append((i, None))
             reqs2.append({"m": "c05", "op": "shevalf", "env": c["old"] if c["kind"] == "emit" else c["base"],
@@ -1626,6 +1631,19 @@ def evaluate(ctx, cases):
             ctx.disagree("emitted_commands" if mo["cmds"] != io_cmp["cmds"] else "environment_bookkeeping", inp, io_cmp, mo)
         if kind == "emit" and o["shell"] == "csh" and not o["noaction"]:
             check_csh(ctx, inp, c["old"], io_["old"], io_["cur"], io_["cmds"], o["isEups"], io_cmp)
+            # the Lean reading of csh words (cshWord, what C05_csh_roundtrip is about) and the harness's reader agree
+            ans = sheval.get((i, "csh"))
+            r = csh_read([x for x in io_["cmds"] if not x.startswith(("alias ", "unalias "))])
+            if ans is not None and "bad-op" not in ans:
+                py = None
+                if r is not None:
+                    py = visible(c["old"])
+                    py.update(r[0])
+                    for k in r[1]:
+                        py.pop(k, None)
+                lean = None if ans.get("none") else visible(ans["env"])
+                if py != lean and m.get("cmds") == io_["cmds"]:
+                    ctx.disagree("csh_reading", inp, py, lean, note="csh_read (harness) and cshApplyAll (model) read the csh text differently")
         if io_.get("shells") is not None:
             if o["shell"] == "zsh":
                 ctx.hist("emit:zsh-text-sourced")
